@@ -29,6 +29,23 @@ func init() {
 	stdSpecs["sort.Strings"] = specSortStrings
 	ghostSorts["G_lines"] = "(Array Int Int)"
 	ghostSorts["G_held"] = "(Array Int Bool)"
+	stdSpecs["encoding/json.Marshal"] = func(fr *frame, c *ssa.CallCommon, args []T, st *state, pos string) []T {
+		fr.vc.assumedStd["encoding/json.Marshal: returns a freshly allocated byte slice (any content) or an error; no effect on its argument or on any stream"] = true
+		ref := fr.vc.alloc(st)
+		n := fr.freshOf("json_len", types.Typ[types.Int], st)
+		fr.vc.assume("true", fmt.Sprintf("(>= %s 0)", n.S))
+		return []T{{fmt.Sprintf("(mk_slice %s 0 %s %s)", ref, n.S, n.S), "Slice", c.Signature().Results().At(0).Type()}, fr.freshOf("json_err", c.Signature().Results().At(1).Type(), st)}
+	}
+	stdSpecs["(*bytes.Buffer).Bytes"] = func(fr *frame, c *ssa.CallCommon, args []T, st *state, pos string) []T {
+		fr.vc.assumedStd["(*bytes.Buffer).Bytes / Len: read-only views of the buffer"] = true
+		return []T{fr.freshOf("buf_bytes", c.Signature().Results().At(0).Type(), st)}
+	}
+	stdSpecs["(*bytes.Buffer).Len"] = func(fr *frame, c *ssa.CallCommon, args []T, st *state, pos string) []T {
+		fr.vc.assumedStd["(*bytes.Buffer).Bytes / Len: read-only views of the buffer"] = true
+		n := fr.freshOf("buf_len", types.Typ[types.Int], st)
+		fr.vc.assume("true", fmt.Sprintf("(>= %s 0)", n.S))
+		return []T{n}
+	}
 	ghostSorts["G_wbytes"] = "(Array Int (Array Int Int))"
 	for _, m := range []string{"(*sync.Mutex)", "(*sync.RWMutex)"} {
 		stdSpecs[m+".Lock"] = specLock
